@@ -11,7 +11,7 @@ def main():
     ap.add_argument("--seed", type=int, default=1); ap.add_argument("--throws", type=float, default=0.15)
     ap.add_argument("--subs", type=float, default=0.25); ap.add_argument("--enq", type=float, default=0.1)
     ap.add_argument("--drain", type=float, default=0.1); ap.add_argument("--restart", type=float, default=0.05)
-    ap.add_argument("--startsubs", type=float, default=0.1); ap.add_argument("--copy", type=float, default=0.0); ap.add_argument("--ninst", type=int, default=1); ap.add_argument("--destroy", type=float, default=0.0); ap.add_argument("--saveload", type=float, default=0.0); ap.add_argument("--fe", default="functor")
+    ap.add_argument("--startsubs", type=float, default=0.1); ap.add_argument("--copy", type=float, default=0.0); ap.add_argument("--ninst", type=int, default=1); ap.add_argument("--destroy", type=float, default=0.0); ap.add_argument("--saveload", type=float, default=0.0); ap.add_argument("--fe", default="functor"); ap.add_argument("--moves", type=float, default=0.0)
     ap.add_argument("--maxcalls", type=int, default=7); ap.add_argument("--show", type=int, default=12)
     a = ap.parse_args()
     d = core.load_def(a.name)
@@ -26,7 +26,7 @@ def main():
     for c in cfgs:
         for f in range(a.files):
             scripts = core.gen_scripts(d, a.seed * 1000 + f, a.n, throws=a.throws, subs=a.subs, enq=a.enq, drain=a.drain,
-                                       restart=a.restart, maxcalls=a.maxcalls, startsubs=a.startsubs, copy=a.copy, ninst=a.ninst, destroy=a.destroy, saveload=a.saveload)
+                                       restart=a.restart, maxcalls=a.maxcalls, startsubs=a.startsubs, copy=a.copy, ninst=a.ninst, destroy=a.destroy, saveload=a.saveload, moves=a.moves)
             jobs.append((c, f, scripts))
     def work(job):
         c, f, scripts = job
